@@ -298,3 +298,56 @@ Section CallSites.
     mapped is_none P f f np ncpu sigma xs = Failed BadWorkerCount.
   Proof. intros Hs Hw. unfold mapped. rewrite Hs, Hw. reflexivity. Qed.
 End CallSites.
+
+(* ------------------------------------------------------------------------------------------ *)
+(* tasks with an options object                                                                 *)
+(* ------------------------------------------------------------------------------------------ *)
+Section OptionsState.
+  Variables A C O : Type.
+  Variable is_none : C -> bool.
+  Variable P : parallel_glue.
+  Variable task : O -> A -> C * O.
+
+  (* a task that copies before writing leaves the shared object alone: the serial branch is a plain map *)
+  Lemma serial_tasks_copying o : forall xs,
+    serial_tasks true task o xs = (map (fun x => fst (task o x)) xs, o).
+  Proof.
+    induction xs as [|x xs IH]; [reflexivity|]. simpl. unfold call_task at 1.
+    destruct (task o x) as [y o'] eqn:E. rewrite IH. simpl. reflexivity.
+  Qed.
+
+  Theorem mapped_with_options_par_eq_ser o np ncpu sigma xs :
+    p_gather P = GatherByIndex ->
+    p_parallel_filters_none P = p_serial_filters_none P ->
+    valid_nproc P np ncpu ->
+    mapped_with_options is_none P true task o np ncpu sigma xs
+    = Done (keep is_none (p_serial_filters_none P) (map (fun x => fst (task o x)) xs), o).
+  Proof.
+    intros Hg Hf Hv. unfold mapped_with_options.
+    destruct (is_serial P np) eqn:Hs.
+    - rewrite serial_tasks_copying. reflexivity.
+    - destruct Hv as [Hv|Hv]; [congruence|].
+      destruct (Nat.eqb (workers P np ncpu) 0) eqn:Hz; [apply Nat.eqb_eq in Hz; lia|].
+      rewrite Hg. simpl. rewrite pool_map_schedule_free by exact Hv. rewrite Hf.
+      f_equal. f_equal. f_equal. apply map_ext. intros x. unfold call_task. destruct (task o x); reflexivity.
+  Qed.
+End OptionsState.
+
+(* sharing without copying: a two-task instance in which the serial and the pool branch differ.
+   options = Some s | None ("x_scale" set / unset); the task does `o.setdefault(x_scale, x)` and returns o[x_scale] *)
+Definition setdefault_task (o : option nat) (x : nat) : option nat * option nat :=
+  match o with Some s => (Some s, Some s) | None => (Some x, Some x) end.
+
+Definition plain_glue : parallel_glue :=
+  {| p_serial_when := 1; p_max_workers := MWAutoElseGiven; p_gather := GatherByIndex;
+     p_serial_filters_none := true; p_parallel_filters_none := true |}.
+
+Definition none_nat (o : option nat) : bool := match o with None => true | Some _ => false end.
+
+Theorem shared_options_refuted :
+  exists (sigma : list nat),
+    mapped_with_options none_nat plain_glue false setdefault_task None (NPInt 1) 4 sigma [1; 2]
+      = Done ([Some 1; Some 1], Some 1) /\
+    mapped_with_options none_nat plain_glue false setdefault_task None (NPInt 2) 4 sigma [1; 2]
+      = Done ([Some 1; Some 2], None).
+Proof. exists [1; 0]. split; vm_compute; reflexivity. Qed.
